@@ -399,3 +399,76 @@ func RunElectionRace(w *World, idx int) {
 	w.Res.Count("volume_starts", 1)
 	w.CheckSettled("start")
 }
+
+// RunCloneStart is the controller's side of C19: the only replica of a new
+// volume is a clone whose status moves through a scripted sequence ("" while
+// the replica has not begun, "inProgress" during the copy, then "completed" or
+// "error") while the controller polls it during Start. The replica must not be
+// told RW, nor listed RW, before it reported "completed"; after "error" it
+// must not be attached at all.
+func RunCloneStart(w *World, idx int) {
+	r := w.R
+	f := w.NewFake(int64(r.Range(1, 9)))
+	empties := []int{0, 1, 2, 4, 5, 6}[idx%6]
+	copying := []int{0, 1, 2, 3}[(idx/6)%4]
+	final := []string{"completed", "completed", "error", "completed"}[(idx/24+idx)%4]
+	var script []string
+	for i := 0; i < empties; i++ {
+		script = append(script, "")
+	}
+	for i := 0; i < copying; i++ {
+		script = append(script, "inProgress")
+	}
+	script = append(script, final)
+	f.mu.Lock()
+	f.CloneStatus = ""
+	f.CloneScript = script
+	f.mu.Unlock()
+	w.Cfg = map[string]interface{}{"rf": w.RF, "scenario": "clone-start", "polls_empty": empties, "polls_in_progress": copying, "final": final}
+	w.NonTrivial = true
+	w.Register(f, "closed")
+	st := w.C.VerifState()
+	if !st.StartSignalled || st.MaxRevReplica != f.IP {
+		w.notes = append(w.notes, "clone-start: the only replica was not signalled")
+		return
+	}
+	// sampler: what the controller reports while Start is polling (GET /v1/replicas takes the lock Start holds, so
+	// the replica's own record of what it was told is the witness)
+	err := w.Start(f)
+	w.Res.Count("clone_starts", 1)
+	w.Res.Count("clone_status_polls", int64(len(script)))
+	f.mu.Lock()
+	calls := append([]string(nil), f.SetCalls...)
+	mode := f.Mode
+	f.mu.Unlock()
+	completedSeen := false
+	for _, c := range calls {
+		if c == "clonestatus=completed" {
+			completedSeen = true
+		}
+		if c == "mode=RW" && !completedSeen {
+			w.Fail("C19", "clone-told-RW-before-completed", fmt.Sprintf("the controller set the clone replica RW before it reported completed; what the replica saw, in order: %v (script %q)", calls, script))
+			return
+		}
+	}
+	post := w.C.VerifState()
+	listedRW := false
+	for _, rp := range post.Replicas {
+		if rp.Address == f.Addr && rp.Mode == types.RW {
+			listedRW = true
+		}
+	}
+	switch final {
+	case "error":
+		if err == nil || listedRW || mode == "RW" || len(post.Replicas) > 0 {
+			w.Fail("C19", "failed-clone-served", fmt.Sprintf("the clone reported error, yet Start returned %v and the controller holds %s (replica told %q)", err, digest(post, false), mode))
+			return
+		}
+	default:
+		if err != nil || !listedRW {
+			w.Fail("C19", "completed-clone-not-started", fmt.Sprintf("the clone reported completed after %d polls, yet Start returned %v and the controller holds %s", len(script), err, digest(post, false)))
+			return
+		}
+		w.CheckSettled("clone-start")
+	}
+}
